@@ -22,7 +22,7 @@ def handle (line : String) : Out :=
       if !(["mary", "alonzo", "babbage", "conway", "dijkstra"].contains era) then badOp
       else if enc ≠ "m" && enc ≠ "b" then badOp
       else if k ≠ outs.length || k = 0 then badOp
-      else if (inq : Int) > maxU64 || mint > 9223372036854775807 || mint < -9223372036854775808 then badOp
+      else if (inq : Int) > maxU64 then badOp
       else
       let t : Tx := { inQty := inq, mint := mint, outs := outs }
       let model := match run t with
